@@ -189,7 +189,12 @@ def genScript (rng : Rng) (len : Nat) (faulty : Bool) : Rng × Array String :=
   let head : Array String := #["reset", s!"new g0 {n} {cap}", s!"new g1 {n} {cap}"]
   if faulty then
     let (rng, text') := corrupt rng text
-    (rng, head ++ #[s!"script g0 {showTextTok text'}", "observe g0"])
+    -- after the script, failed or not: every vertex it left behind is read (collections), then the allocator is asked — an id a
+    -- variable of the script took must not come back, whether the script got to its end or not (C05)
+    let st := (Ss.deploy text' (Sodg.empty n cap : G)).1
+    let reads := (Sodg.keys st.g).toArray.map (fun v => s!"data g0 {v}")
+    (rng, head ++ #[s!"script g0 {showTextTok text'}", "observe g0"] ++ reads ++
+      #["observe g0", "nextid g0", "nextid g0", "nextid g0", "observe g0"])
   else
     let lines := head ++ #[s!"script g0 {showTextTok text}"] ++ s.direct ++ #["observe g0", "observe g1", "same g0 g1"]
     -- drain both graphs
